@@ -16,3 +16,38 @@ package sts
 //@   modifies nothing
 //@ interface SendLogger.WasSent trusted
 //@   modifies nothing
+
+// A8: the getters behind these interfaces are stable during one verified call (the objects are not
+// mutated concurrently); each is an uninterpreted function of the receiver.
+//@ interface File.GetPath pure stable
+//@ interface File.GetName pure stable
+//@ interface File.GetSize pure stable
+//@ interface File.GetTime pure stable
+//@ interface File.GetMeta pure stable
+//@ interface Hashed.GetHash pure stable
+//@ interface Sendable.GetPrev pure stable
+//@ interface Sendable.GetSlice pure stable
+//@ interface Sendable.GetSendSize pure stable
+//@ interface Recovered.GetPrev pure stable
+//@ interface Binned.GetName pure stable
+//@ interface Binned.GetRenamed pure stable
+//@ interface Binned.GetPrev pure stable
+//@ interface Binned.GetFileTime pure stable
+//@ interface Binned.GetFileHash pure stable
+//@ interface Binned.GetFileSize pure stable
+//@ interface Binned.GetSendSize pure stable
+//@ interface Binned.GetSlice pure stable
+//@ interface Sent.GetName pure stable
+//@ interface Sent.GetSize pure stable
+//@ interface Sent.GetHash pure stable
+//@ interface Sent.TimeMs pure stable
+//@ interface Pollable.GetPrev pure stable
+//@ interface Pollable.GetStarted pure stable
+//@ interface Polled.NotFound pure stable
+//@ interface Polled.Waiting pure stable
+//@ interface Polled.Failed pure stable
+//@ interface Polled.Received pure stable
+//@ interface Received.GetName pure stable
+//@ interface Received.GetRenamed pure stable
+//@ interface Received.GetSize pure stable
+//@ interface Received.GetHash pure stable
